@@ -24,6 +24,7 @@ META = {
 }
 
 META['explanation'] += ' ' + 'R6: explicit rejections against the reviewed table. R7: TXT character-strings (tabulated). R8: RRSIG timestamps and DNSKEY flags through the shared primitives (tabulated). R9: fixed length integers exact for every bit length, refusal instead of truncation. R5 also tabulates the RSA modulus width for moduli that are exact powers of two, with the key size modelled as the dependency computes it. R10: a parser whose consumed length is not reported tests that nothing is left unread. Spec items name the attribute they carry.'
+META['explanation'] += ' ' + 'R11: DSA key fields (T and one common width of 64 + 8T octets) as a parse-compose-parse pipeline over primes shorter than their field; ts items of the specification carry whether all-ones means no limit.'
 MODULES = {'cryptoparser.dnsrec.record'}
 HERE = os.path.dirname(os.path.dirname(os.path.abspath(__file__)))
 
